@@ -260,6 +260,8 @@ def run_shard(shard):
 
     # ------------------------------------------------------------------ bijections --------
     for it in shard["items"]:
+        if it.get("origin") == "boundary":  # replay of the closure-of-codomain clause (below)
+            continue
         try:
             if it["kind"] == "spec":
                 sp = it["spec"]
@@ -318,6 +320,50 @@ def run_shard(shard):
         if len(rec.samples) < 2 and it["origin"] == "random":
             rec.samples.append(jsonable({"structure": it.get("spec"), "clauses": ["jit(model arg) vs eager", "jit(bound method)", "repeat bits", "second model via same jit",
                                                                                  "vmap vs loop", "flatten", "serialise->fresh model"]}))
+
+    # ------------------------------------------------------------------ closure-of-codomain inputs ------
+    # what a single-precision round trip produces (tanh(x) == 1.0 exactly for |x| > 9, exp(x) == 0.0 for x < -104): the eager call,
+    # the jitted call and the vmapped call must have the same outcome - all return (the same +-inf / nan pattern and the same
+    # finite values) or all raise; a check that only runs on concrete values makes the eager path differ from the traced one
+    if (shard.get("shard", 0) == 0 and not shard.get("replay")) or any(i_.get("origin") == "boundary" for i_ in shard.get("items", [])):
+        aff = B.Affine(jnp.asarray([0.2, -0.4, 1.0]), jnp.asarray([1.5, 0.5, 2.0]))
+        zoo_b = {
+            "Tanh": (B.Tanh((3,)), [1.0, -1.0, 0.5]), "Chain[Affine, Tanh]": (B.Chain([aff, B.Tanh((3,))]), [-1.0, 0.25, 1.0]),
+            "Invert(Invert(Tanh))": (B.Invert(B.Invert(B.Tanh((3,)))), [1.0, 0.0, -1.0]),
+            "Exp": (B.Exp((3,)), [0.0, 1.0, 2.0]), "SoftPlus": (B.SoftPlus((3,)), [0.0, 0.5, 3.0]),
+            "Chain[Affine, Exp]": (B.Chain([aff, B.Exp((3,))]), [1.0, 0.0, 0.0]),
+            "LeakyTanh(2)": (B.LeakyTanh(2.0, (3,)), [1.0, -1.0, float(np.tanh(2.0))]),
+        }
+
+        def outcome(f, *a):
+            try:
+                out = f(*a)
+                return "returns", [np.asarray(l, dtype=np.float64) for l in jax.tree_util.tree_leaves(out)]
+            except Exception as e:  # noqa: BLE001
+                return "raises " + type(e).__name__, None
+
+        for nm, (bj, yv) in zoo_b.items():
+            for m in ("inverse", "inverse_and_log_det"):
+                it_b = {"origin": "boundary", "case": nm, "method": m}
+                y = jnp.asarray(yv)
+                rec.evals += 1
+                rec.count("boundary_outcome_comparisons")
+                rec.nontrivial.add(chash("boundary", nm, m))
+                oe = outcome(lambda mm, v: getattr(mm, m)(v), bj, y)
+                oj = outcome(eqx.filter_jit(lambda mm, v: getattr(mm, m)(v)), bj, y)
+                ov = outcome(lambda mm, v: jax.vmap(getattr(mm, m))(v), bj, jnp.stack([y, y]))
+                if not (oe[0] == oj[0] == ov[0]):
+                    rec.violation("outcome.differs", f"{nm}.{m}({yv}): eager {oe[0]}, eqx.filter_jit {oj[0]}, jax.vmap {ov[0]}", it_b, ("init", 0.0), {})
+                    continue
+                if oe[1] is not None:
+                    for le, lj, lv in zip(oe[1], oj[1], ov[1]):
+                        same = (np.array_equal(np.isnan(le), np.isnan(lj)) and np.array_equal(np.isposinf(le), np.isposinf(lj))
+                                and np.array_equal(np.isneginf(le), np.isneginf(lj)))
+                        fin = np.isfinite(le) & np.isfinite(lj)
+                        same = same and np.allclose(le[fin], lj[fin], rtol=1e-9, atol=1e-12) and np.allclose(lv[0][..., fin] if lv.ndim > le.ndim else lv[0], le[fin] if lv.ndim > le.ndim else le, rtol=1e-9, atol=1e-12, equal_nan=True)
+                        if not same:
+                            rec.violation("outcome.values_differ", f"{nm}.{m}({yv}): eager {le.tolist()} vs jit {lj.tolist()} vs vmap row {lv[0].tolist()}", it_b, ("init", 0.0), {})
+                            break
 
     # ------------------------------------------------------------------ distributions ------
     if not shard.get("replay"):
